@@ -11,7 +11,7 @@ LEVEL = "proof"
 def collect():
     from contracts import memory_c02 as c
     fns = [c.verify_align_up, c.verify_align_to, c.verify_compute_addr_range, c.verify_add_resource]
-    for name in ("verify_add_window", "verify_freeze", "verify_init", "verify_resources", "verify_windows"):
+    for name in ("verify_add_window", "verify_freeze", "verify_init", "verify_rangemap_init", "verify_resources", "verify_windows"):
         if hasattr(c, name):
             fns.append(getattr(c, name))
     try:
